@@ -254,7 +254,11 @@ Definition check_parse (table : list (string * string)) (s : string) (impl : opt
   match parse s, impl with
   | None, None => ([], [0%nat])                 (* not in the language: rejected by both *)
   | None, Some _ => ([], [1%nat])
-  | Some _, None => ([], [1%nat])               (* a string of the language must be read *)
+  | Some p, None =>
+      (* a string of the language must be read -- unless it has no value in standard arithmetic at any point
+         (a literal division or modulo by zero such as x % (2 // 3)): refusing that is not a misreading *)
+      if forallb (fun pt => match evalP table (envQ pt (dfltQ 0)) p with None => true | Some _ => false end) pts
+      then ([], [2%nat]) else ([], [1%nat])
   | Some p, Some e =>
       ([], map (fun pt => let r := envQ pt (dfltQ 0) in
                           if inexact then cmpQ_tol (1 # 1000000000) (evalP table r p) (evalQ r e)
